@@ -365,6 +365,18 @@ func drainObjs(en hmap.Enumeration, limit int, f func(interface{})) {
 	}
 }
 
+// enumerators in the harness's hands (stepped one call at a time by the session)
+func intEn(kind string, en interface {
+	HasMoreElements() bool
+	NextInt() int32
+}, proj func(int32) int) *En {
+	return &En{Kind: kind, More: en.HasMoreElements, Next: func() Ev { return Ev{"x": proj(en.NextInt())} }}
+}
+
+func objEn(kind string, en hmap.Enumeration, proj func(interface{}) Ev) *En {
+	return &En{Kind: kind, More: en.HasMoreElements, Next: func() Ev { return proj(en.NextElement()) }}
+}
+
 func items(s string, sep string) int {
 	if !strings.HasPrefix(s, "{") || !strings.HasSuffix(s, "}") {
 		return Bad
@@ -431,6 +443,19 @@ func intIntObjOf(p *intPool, ctor Ctor, m *hmap.IntIntMap) *Obj {
 			}
 		})
 		return
+	}
+	// (m is re-read at every call: the wire round trip replaces it)
+	o.Enum = map[string]func() *En{
+		"k": func() *En { return intEn("k", m.Keys(), func(k int32) int { return p.rank(k) }) },
+		"v": func() *En { return intEn("v", m.Values(), func(v int32) int { return int(v) }) },
+		"e": func() *En {
+			return objEn("e", m.Entries(), func(x interface{}) Ev {
+				if e, ok := x.(*hmap.IntIntEntry); ok {
+					return Ev{"p": []int{p.rank(e.GetKey()), int(e.GetValue())}}
+				}
+				return Ev{"p": []int{0, Bad}}
+			})
+		},
 	}
 	o.Ops["Put"] = func(op Op) Ev { return ret(m.Put(p.key(op.K), int32(op.V))) }
 	o.Ops["Add"] = func(op Op) Ev { return ret(m.Add(p.key(op.K), int32(op.V))) }
@@ -529,6 +554,18 @@ func intKeyObj(p *intPool, ctor Ctor) *Obj {
 		})
 		return
 	}
+	o.Enum = map[string]func() *En{
+		"k": func() *En { return intEn("k", m.Keys(), func(k int32) int { return p.rank(k) }) },
+		"v": func() *En { return objEn("v", m.Values(), func(x interface{}) Ev { return Ev{"x": pObj1(x)} }) },
+		"e": func() *En {
+			return objEn("e", m.Entries(), func(x interface{}) Ev {
+				if e, ok := x.(*hmap.IntKeyEntry); ok {
+					return Ev{"p": []int{p.rank(e.GetKey()), pObj1(e.GetValue())}}
+				}
+				return Ev{"p": []int{0, Bad}}
+			})
+		},
+	}
 	o.Ops["Put"] = func(op Op) Ev { return Ev{"ret": pObj(m.Put(p.key(op.K), box(op.V)))} }
 	o.Ops["Get"] = func(op Op) Ev { return Ev{"ret": pObj(m.Get(p.key(op.K)))} }
 	o.Ops["Remove"] = func(op Op) Ev { return Ev{"ret": pObj(m.Remove(p.key(op.K)))} }
@@ -597,6 +634,9 @@ func intSetObj(p *intPool) *Obj {
 		return seq
 	}
 	o.Proj = func() (ks, vs []int) { ks = elems(); return ks, ks }
+	o.Enum = map[string]func() *En{
+		"v": func() *En { return intEn("v", m.Values(), func(k int32) int { return p.rank(k) }) },
+	}
 	o.Ops["Put"] = func(op Op) Ev { return Ev{"b": m.Put(p.key(op.K))} }
 	o.Ops["Contains"] = func(op Op) Ev { return Ev{"b": m.Contains(p.key(op.K))} }
 	o.Ops["Remove"] = func(op Op) Ev {
@@ -644,6 +684,12 @@ func strSetObj(p *strPool) *Obj {
 		return seq
 	}
 	o.Proj = func() (ks, vs []int) { ks = elems(); return ks, ks }
+	o.Enum = map[string]func() *En{
+		"k": func() *En {
+			en := m.Keys()
+			return &En{Kind: "k", More: en.HasMoreElements, Next: func() Ev { return Ev{"x": p.rank(en.NextString())} }}
+		},
+	}
 	o.Ops["Put"] = func(op Op) Ev { return Ev{"rk": p.rank(m.Put(p.key(op.K)))} }
 	o.Ops["Unipoint"] = func(op Op) Ev { return Ev{"rk": p.rank(m.Unipoint(p.key(op.K)))} }
 	o.Ops["Contains"] = func(op Op) Ev { return Ev{"b": m.Contains(p.key(op.K))} }
